@@ -102,10 +102,17 @@ class SmppMessage(Base):
         command_id: int = unpack_from('!I', header_data, 4)[0]
         command_status_id: int = unpack_from('!I', header_data, 8)[0]
         sequence_num: int = unpack_from('!I', header_data, 12)[0]
+        command_status: SmppCommandStatus
+        try:
+            command_status = SmppCommandStatus(command_status_id)
+        except ValueError:
+            # A reserved or SMSC vendor specific error code (SMPP 3.4, section 5.1.3): the PDU is
+            # as valid as any other negative response. The numeric value is still in the raw PDU
+            command_status = SmppCommandStatus.ESME_RUNKNOWNERR
         return PduHeader(
             pdu_length=pdu_length,
             smpp_command=SmppCommand(command_id),
-            command_status=SmppCommandStatus(command_status_id),
+            command_status=command_status,
             sequence_num=sequence_num,
         )
 
